@@ -408,9 +408,7 @@ theorem C46_v2_truncated_no_data (env : Env) (vc fam : UInt8) (block : Bytes) (k
     limiter over a connection that delivers its bytes in ARBITRARY segments.  The two primitives the header parser
     is built from — `Peek(n)` (`need n`, n ≤ 4096) and `ReadByte` — have results that are functions of the remaining
     byte string `r.rest` alone, and leave `rest`/`all` shortened by exactly what they consumed.  Hence two
-    segmentations of the same stream cannot be told apart through them.  (The composition `parseV2Seg` in Seg.lean
-    is their straight-line combination; its equality with the chunk-free `parseV2` is exercised by the harness,
-    which delivers every fixture split at every offset, and is not yet a theorem.) -/
+    segmentations of the same stream cannot be told apart through them.  (Their composition into `parseVersion2` is `C46_chunking_independent_v2` below.) -/
 theorem C46_chunking_independent_partial (r : Rdr) (S L : Nat) (hK : r.K S L) :
     (∀ n, n ≤ bufSize →
       (r.need n).rest = r.rest ∧ (r.need n).all = r.all ∧
@@ -443,6 +441,39 @@ theorem C46_chunking_independent_partial (r : Rdr) (S L : Nat) (hK : r.K S L) :
     obtain ⟨a, b', _⟩ := readByte_some r S L hK b r' h
     exact ⟨a, b'⟩
 
+/-- **C46_chunking_independent (v2 parser)**: let the connection deliver the stream in ANY segments `segs` (each
+    `conn.Read` returns bytes of at most one segment), read through bfe_bufio's 4096-byte reader and the header
+    limiter.  Once `Peek(12)` has matched the v2 signature, `parseVersion2` over that reader (`parseV2Seg`: ReadByte ×4,
+    Peek(length), addresses and drain out of the buffer) returns exactly what the chunk-free model `parseV2` returns
+    on the concatenated stream cut at the limit — in particular two segmentations of the same stream give the same
+    result (the seeded "TLVs split across segments" change breaks this equality). -/
+theorem C46_chunking_independent_v2 (segs : List Bytes) (limit : Nat) (e : EndK) :
+    let r := ({ buf := [], segs := segs, N := effLimit limit } : Rdr).need 12
+    r.buf.take 12 = sigV2 →
+    (parseV2Seg r e).1 = parseV2 ((segs.flatten).take (effLimit limit)) (atEOFOf segs.flatten limit e) := by
+  intro r hsig
+  have hK0 : ({ buf := [], segs := segs, N := effLimit limit } : Rdr).K segs.flatten.length (effLimit limit) := by
+    simp [Rdr.K]
+  obtain ⟨er, _, hK, _⟩ := rdr_need_spec _ 12 (by decide) _ _ hK0
+  have := parseV2Seg_result r e _ _ hK hsig
+  rw [this, er]
+  simp [Rdr.rest, atEOFOf]
+
+theorem C46_chunking_independent_v2_pair (segs segs' : List Bytes) (limit : Nat) (e : EndK)
+    (hsame : segs.flatten = segs'.flatten)
+    (h1 : (({ buf := [], segs := segs, N := effLimit limit } : Rdr).need 12).buf.take 12 = sigV2)
+    (h2 : (({ buf := [], segs := segs', N := effLimit limit } : Rdr).need 12).buf.take 12 = sigV2) :
+    (parseV2Seg (({ buf := [], segs := segs, N := effLimit limit } : Rdr).need 12) e).1 =
+    (parseV2Seg (({ buf := [], segs := segs', N := effLimit limit } : Rdr).need 12) e).1 := by
+  rw [C46_chunking_independent_v2 segs limit e h1, C46_chunking_independent_v2 segs' limit e h2, hsame]
+
+-- a TCP4 header with a 3-byte TLV delivered in four uneven segments (one of them empty), 2 payload bytes behind it
+example :
+    let r := ({ buf := [], segs := [sigV2.take 5, sigV2.drop 5 ++ [0x21, 0x11, 0x00], [], [0x0F, 1, 2, 3, 4, 5, 6, 7], [8, 0, 80, 1, 187, 9, 9, 9, 0x68, 0x69]],
+                N := 2048 } : Rdr).need 12
+    r.buf.take 12 = sigV2 ∧
+    (parseV2Seg r .eof).1 = .hdr 0x11 (some (to16 [1, 2, 3, 4])) (some (to16 [5, 6, 7, 8])) 80 443 31 ∧
+    (parseV2Seg r .eof).2.all = [0x68, 0x69] := by decide
 example : ({ buf := [], segs := [[1], [], [2, 3]], N := 2 } : Rdr).K 3 2 := by simp [Rdr.K]
 example : (({ buf := [], segs := [[1], [], [2, 3]], N := 2 } : Rdr).need 2).buf = [1, 2] := by decide
 
